@@ -32,6 +32,7 @@ structure VSys where
   nodes : Nat → VNode
   grants : List Grant
   elected : List (Nat × Nat)
+  ecfgs : List (Nat × Cfg) := []
 
 def grantOf : OMsg → Option Grant
   | .grant t v c _ => some ⟨t, v, c⟩
@@ -42,7 +43,7 @@ def vproj (n : PNode) : VNode :=
     pend := n.pending.map (fun im => (im.term, im.vote)), og := n.outbox.filterMap grantOf }
 
 def vsys (s : PSys) : VSys :=
-  { nodes := fun j => vproj (s.nodes j), grants := s.grants, elected := s.elected }
+  { nodes := fun j => vproj (s.nodes j), grants := s.grants, elected := s.elected, ecfgs := s.ecfgs }
 
 def updV (f : Nat → VNode) (i : Nat) (n : VNode) : Nat → VNode := fun j => if j = i then n else f j
 
@@ -57,7 +58,7 @@ theorem vproj_upd (f : Nat → PNode) (i : Nat) (n : PNode) :
 /-- membership in the union of the grants node `i` has generated and those it has released -/
 def inU (v : VSys) (i : Nat) (g : Grant) : Prop := g ∈ (v.nodes i).og ∨ (g ∈ v.grants ∧ g.voter = i)
 
-structure InvV (c0 : Cfg) (v : VSys) : Prop where
+structure InvV (v : VSys) : Prop where
   dv : ∀ i, le2 (v.nodes i).d (v.nodes i).vol
   pa : ∀ i, ∀ p ∈ (v.nodes i).pend, le2 (v.nodes i).d p ∧ le2 p (v.nodes i).vol
   pp : ∀ i, (v.nodes i).pend.Pairwise le2
@@ -68,17 +69,18 @@ structure InvV (c0 : Cfg) (v : VSys) : Prop where
           (g.term = (v.nodes i).term → (v.nodes i).vote = g.cand)
   gc : ∀ i a b, inU v i a → inU v i b → a.term = b.term → a.cand = b.cand
   el : ∀ p ∈ v.elected, (⟨p.1, p.2, p.2⟩ : Grant) ∈ v.grants ∧
-          ∃ q, c0.isQuorum q = true ∧ ∀ x ∈ q, (⟨p.1, x, p.2⟩ : Grant) ∈ v.grants
+          ∃ cfg q, (p.1, cfg) ∈ v.ecfgs ∧ cfg.isQuorum q = true ∧ ∀ x ∈ q, (⟨p.1, x, p.2⟩ : Grant) ∈ v.grants
+  eu : ∀ a ∈ v.elected, ∀ b ∈ v.elected, a.1 = b.1 → a.2 = b.2
   ld : ∀ i, (v.nodes i).role = 2 → ((v.nodes i).term, i) ∈ v.elected ∧
           (v.nodes i).dterm = (v.nodes i).term ∧ (v.nodes i).dvote = i ∧ (v.nodes i).vote = i ∧ 0 < i
 
 def vinit : VSys :=
-  { nodes := fun _ => ⟨0, 0, 0, 0, 0, [], []⟩, grants := [], elected := [] }
+  { nodes := fun _ => ⟨0, 0, 0, 0, 0, [], []⟩, grants := [], elected := [], ecfgs := [] }
 
 theorem vsys_init : vsys init = vinit := by
   simp [vsys, init, vinit, vproj]
 
-theorem invV_init (c0 : Cfg) : InvV c0 vinit := by
+theorem invV_init : InvV vinit := by
   constructor <;> simp [vinit, le2, VNode.d, VNode.vol, inU]
 
 
@@ -100,11 +102,11 @@ def nRole0 (n : VNode) : VNode := { n with role := 0 }
 /-! ### the ten V-transitions preserve the invariant -/
 
 section transitions
-variable {c0 : Cfg} {v : VSys}
+variable {v : VSys}
 
 /-- frame: a transition that touches only node `i` and neither grants nor elected leaves the facts
 about other nodes alone; we restate each clause for node `i` only -/
-theorem invV_of_node (h : InvV c0 v) (i : Nat) (n' : VNode)
+theorem invV_of_node (h : InvV v) (i : Nat) (n' : VNode)
     (hgr : True)
     (dv : le2 n'.d n'.vol)
     (pa : ∀ p ∈ n'.pend, le2 n'.d p ∧ le2 p n'.vol)
@@ -116,7 +118,7 @@ theorem invV_of_node (h : InvV c0 v) (i : Nat) (n' : VNode)
     (gc : ∀ a b, (a ∈ n'.og ∨ (a ∈ v.grants ∧ a.voter = i)) → (b ∈ n'.og ∨ (b ∈ v.grants ∧ b.voter = i)) →
             a.term = b.term → a.cand = b.cand)
     (ld : n'.role = 2 → (n'.term, i) ∈ v.elected ∧ n'.dterm = n'.term ∧ n'.dvote = i ∧ n'.vote = i ∧ 0 < i) :
-    InvV c0 (setN v i n') := by
+    InvV (setN v i n') := by
   unfold setN
   constructor
   · intro j; by_cases hj : j = i
@@ -152,13 +154,14 @@ theorem invV_of_node (h : InvV c0 v) (i : Nat) (n' : VNode)
     · simp only [inU, updV_other _ _ _ _ hj] at ha hb
       exact h.gc j a b ha hb
   · exact h.el
+  · exact h.eu
   · intro j; by_cases hj : j = i
     · subst hj; simpa using ld
     · simpa [updV_other _ _ _ _ hj] using h.ld j
 
 /-- T1: adopt a higher term -/
-theorem invV_bump (h : InvV c0 v) (i t : Nat) (ht : (v.nodes i).term < t) :
-    InvV c0 (setN v i (nBump (v.nodes i) t)) := by
+theorem invV_bump (h : InvV v) (i t : Nat) (ht : (v.nodes i).term < t) :
+    InvV (setN v i (nBump (v.nodes i) t)) := by
   unfold nBump
   have hdv := h.dv i
   apply invV_of_node h i _ trivial
@@ -180,8 +183,8 @@ theorem invV_bump (h : InvV c0 v) (i t : Nat) (ht : (v.nodes i).term < t) :
   · simp
 
 /-- T2: campaign — vote for oneself, generate the self-grant -/
-theorem invV_campaign (h : InvV c0 v) (i : Nat) (hv : (v.nodes i).vote = 0) (hi : 0 < i) :
-    InvV c0 (setN v i (nCampaign (v.nodes i) i)) := by
+theorem invV_campaign (h : InvV v) (i : Nat) (hv : (v.nodes i).vote = 0) (hi : 0 < i) :
+    InvV (setN v i (nCampaign (v.nodes i) i)) := by
   unfold nCampaign
   have hdv := h.dv i
   -- no generated or released grant of `i` carries the current term yet
@@ -233,9 +236,9 @@ theorem invV_campaign (h : InvV c0 v) (i : Nat) (hv : (v.nodes i).vote = 0) (hi 
   · simp
 
 /-- T3: decide a vote for another candidate, generate the grant -/
-theorem invV_grant (h : InvV c0 v) (i c : Nat) (hv : (v.nodes i).vote = 0 ∨ (v.nodes i).vote = c)
+theorem invV_grant (h : InvV v) (i c : Nat) (hv : (v.nodes i).vote = 0 ∨ (v.nodes i).vote = c)
     (hc : 0 < c) :
-    InvV c0 (setN v i (nGrant (v.nodes i) i c)) := by
+    InvV (setN v i (nGrant (v.nodes i) i c)) := by
   unfold nGrant
   have hdv := h.dv i
   -- grants of the current term already name `c`
@@ -287,8 +290,8 @@ theorem invV_grant (h : InvV c0 v) (i c : Nat) (hv : (v.nodes i).vote = 0 ∨ (v
   · simp
 
 /-- T4: take an image of the volatile (term, vote) at a Ready boundary -/
-theorem invV_rdy (h : InvV c0 v) (i : Nat) :
-    InvV c0 (setN v i (nRdy (v.nodes i))) := by
+theorem invV_rdy (h : InvV v) (i : Nat) :
+    InvV (setN v i (nRdy (v.nodes i))) := by
   unfold nRdy
   apply invV_of_node h i _ trivial
   · exact h.dv i
@@ -317,9 +320,9 @@ theorem split_at (l : List (Nat × Nat)) (k : Nat) (p : Nat × Nat) (hk : 0 < k)
   exact this.symm
 
 /-- T5: make the `k`-th pending image durable -/
-theorem invV_persist (h : InvV c0 v) (i k : Nat) (p : Nat × Nat) (hk : 0 < k)
+theorem invV_persist (h : InvV v) (i k : Nat) (p : Nat × Nat) (hk : 0 < k)
     (hp : (v.nodes i).pend[k - 1]? = some p) :
-    InvV c0 (setN v i (nPersist (v.nodes i) p k)) := by
+    InvV (setN v i (nPersist (v.nodes i) p k)) := by
   unfold nPersist
   have hmem : p ∈ (v.nodes i).pend := List.mem_of_getElem? hp
   have hpa := h.pa i p hmem
@@ -372,9 +375,9 @@ theorem invV_persist (h : InvV c0 v) (i k : Nat) (p : Nat × Nat) (hk : 0 < k)
       · omega
 
 /-- T6: release a generated grant whose promise is durable -/
-theorem invV_release (h : InvV c0 v) (i k : Nat) (g : Grant) (hg : (v.nodes i).og[k]? = some g)
+theorem invV_release (h : InvV v) (i k : Nat) (g : Grant) (hg : (v.nodes i).og[k]? = some g)
     (hr : g.term < (v.nodes i).dterm ∨ ((v.nodes i).dterm = g.term ∧ (v.nodes i).dvote = g.cand)) :
-    InvV c0 { setN v i (nRelease (v.nodes i) k) with grants := g :: v.grants } := by
+    InvV { setN v i (nRelease (v.nodes i) k) with grants := g :: v.grants } := by
   unfold setN nRelease
   have hmem : g ∈ (v.nodes i).og := List.mem_of_getElem? hg
   have hvo : g.voter = i := h.go i g hmem
@@ -428,15 +431,16 @@ theorem invV_release (h : InvV c0 v) (i k : Nat) (g : Grant) (hg : (v.nodes i).o
     · simpa [updV_other _ _ _ _ hj] using this
   · intro j a b ha hb; exact h.gc j a b (hU j a ha) (hU j b hb)
   · intro p hp
-    obtain ⟨hs, q, hq, hall⟩ := h.el p hp
-    exact ⟨List.mem_cons_of_mem _ hs, q, hq, fun x hx => List.mem_cons_of_mem _ (hall x hx)⟩
+    obtain ⟨hs, cfg, q, hc, hq, hall⟩ := h.el p hp
+    exact ⟨List.mem_cons_of_mem _ hs, cfg, q, hc, hq, fun x hx => List.mem_cons_of_mem _ (hall x hx)⟩
+  · exact h.eu
   · intro j; by_cases hj : j = i
     · subst hj; simpa using h.ld j
     · simpa [updV_other _ _ _ _ hj] using h.ld j
 
 /-- T7: crash — volatile images and generated-but-unreleased messages are lost -/
-theorem invV_crash (h : InvV c0 v) (i : Nat) :
-    InvV c0 (setN v i (nCrash (v.nodes i))) := by
+theorem invV_crash (h : InvV v) (i : Nat) :
+    InvV (setN v i (nCrash (v.nodes i))) := by
   unfold nCrash
   apply invV_of_node h i _ trivial
   · exact h.dv i
@@ -453,8 +457,8 @@ theorem invV_crash (h : InvV c0 v) (i : Nat) :
   · simp
 
 /-- T8: restart from the durable image -/
-theorem invV_restart (h : InvV c0 v) (i : Nat) :
-    InvV c0 (setN v i (nRestart (v.nodes i))) := by
+theorem invV_restart (h : InvV v) (i : Nat) :
+    InvV (setN v i (nRestart (v.nodes i))) := by
   unfold nRestart
   apply invV_of_node h i _ trivial
   · exact le2_refl _
@@ -477,11 +481,13 @@ theorem invV_restart (h : InvV c0 v) (i : Nat) :
   · simp
 
 /-- T9: win an election with a quorum of released grants (own durable self-vote included) -/
-theorem invV_win (h : InvV c0 v) (i : Nat) (q : List Nat) (hq : c0.isQuorum q = true)
+theorem invV_win (h : InvV v) (i : Nat) (cfg : Cfg) (q : List Nat) (hq : cfg.isQuorum q = true)
     (hvote : (v.nodes i).vote = i)
     (hself : (⟨(v.nodes i).term, i, i⟩ : Grant) ∈ v.grants)
-    (hall : ∀ x ∈ q, (⟨(v.nodes i).term, x, i⟩ : Grant) ∈ v.grants) :
-    InvV c0 { setN v i (nWin (v.nodes i)) with elected := ((v.nodes i).term, i) :: v.elected } := by
+    (hall : ∀ x ∈ q, (⟨(v.nodes i).term, x, i⟩ : Grant) ∈ v.grants)
+    (hmeet : ∀ p ∈ v.ecfgs, p.1 = (v.nodes i).term → ∀ q', p.2.isQuorum q' = true → ∃ x, x ∈ q ∧ x ∈ q') :
+    InvV { setN v i (nWin (v.nodes i)) with elected := ((v.nodes i).term, i) :: v.elected,
+                                             ecfgs := ((v.nodes i).term, cfg) :: v.ecfgs } := by
   unfold setN nWin
   have hg1 := h.g1 _ hself
   have hdv := h.dv i
@@ -525,8 +531,25 @@ theorem invV_win (h : InvV c0 v) (i : Nat) (q : List Nat) (hq : c0.isQuorum q = 
   · intro p hp
     simp only [List.mem_cons] at hp
     rcases hp with hp | hp
-    · subst hp; exact ⟨hself, q, hq, hall⟩
-    · exact h.el p hp
+    · subst hp; exact ⟨hself, cfg, q, List.mem_cons_self, hq, hall⟩
+    · obtain ⟨hs, cfg', q', hc', hq', hall'⟩ := h.el p hp
+      exact ⟨hs, cfg', q', List.mem_cons_of_mem _ hc', hq', hall'⟩
+  · -- at most one elected node per term: a second election of this term shares a voter with this one
+    have key : ∀ b ∈ v.elected, b.1 = (v.nodes i).term → b.2 = i := by
+      intro b hb hbt
+      obtain ⟨_, cfg', q', hc', hq', hall'⟩ := h.el b hb
+      obtain ⟨x, hx1, hx2⟩ := hmeet _ hc' hbt q' hq'
+      have g1 := hall x hx1
+      have g2 := hall' x hx2
+      rw [hbt] at g2
+      exact (h.gc x ⟨_, x, i⟩ ⟨_, x, b.2⟩ (Or.inr ⟨g1, rfl⟩) (Or.inr ⟨g2, rfl⟩) rfl).symm
+    intro a ha b hb hab
+    simp only [List.mem_cons] at ha hb
+    rcases ha with ha | ha <;> rcases hb with hb | hb
+    · rw [ha, hb]
+    · rw [ha] at hab ⊢; exact (key b hb hab.symm).symm
+    · rw [hb] at hab ⊢; exact key a ha hab
+    · exact h.eu a ha b hb hab
   · intro j; by_cases hj : j = i
     · subst hj
       intro _
@@ -543,8 +566,8 @@ theorem invV_win (h : InvV c0 v) (i : Nat) (q : List Nat) (hq : c0.isQuorum q = 
       exact ⟨List.mem_cons_of_mem _ this.1, this.2⟩
 
 /-- T10: leave the candidate / leader role in the same term -/
-theorem invV_role0 (h : InvV c0 v) (i : Nat) :
-    InvV c0 (setN v i (nRole0 (v.nodes i))) := by
+theorem invV_role0 (h : InvV v) (i : Nat) :
+    InvV (setN v i (nRole0 (v.nodes i))) := by
   unfold nRole0
   apply invV_of_node h i _ trivial
   · exact h.dv i
@@ -557,10 +580,10 @@ theorem invV_role0 (h : InvV c0 v) (i : Nat) :
   · simp
 
 /-- T11: a fresh node is started from a durable committed prefix of another node -/
-theorem invV_boot (h : InvV c0 v) (i t : Nat) (h0 : (v.nodes i).term = 0) (hv : (v.nodes i).vote = 0)
+theorem invV_boot (h : InvV v) (i t : Nat) (h0 : (v.nodes i).term = 0) (hv : (v.nodes i).vote = 0)
     (hd : (v.nodes i).dvote = 0) (hp : (v.nodes i).pend = []) (ho : (v.nodes i).og = [])
     (hr : (v.nodes i).role = 0) :
-    InvV c0 (setN v i { v.nodes i with term := t, dterm := t }) := by
+    InvV (setN v i { v.nodes i with term := t, dterm := t }) := by
   have hnone : ∀ g, inU v i g → False := by
     intro g hg
     have hgu := h.gu i g hg
